@@ -88,8 +88,109 @@ def extract(ctx):
     return sliced, fired
 
 
+# ---------------------------------------------------------------------------------------------------------------------
+# split-ordered list: list_node accessors, search_after / try_insert / internal_insert, insert_dummy_node,
+# get_bucket / init_bucket / prepare_bucket, internal_find / internal_equal_range / first_value_node / iterator ++
+# ---------------------------------------------------------------------------------------------------------------------
+NODE_METHODS = ['next', 'order_key', 'set_next', 'try_set_next', 'is_dummy']
+
+
+def node_calls(rw, t, minc):
+    """X->m(args) on list nodes -> list_node_m(X[, args]) (the accessors themselves are sliced into nodes.inc)"""
+    def fn(m, a):
+        a = [x for x in a if x != '']
+        return 'list_node_%s(%s)' % (m.group('m'), ', '.join([m.group('o')] + a))
+    return rw.call(t, r'(?P<o>\b\w+)->(?P<m>%s)' % '|'.join(NODE_METHODS), fn, minc, name='node accessor call')
+
+
+def key_calls(rw, t, minc_eq, minc_hash=0):
+    """traits_type::get_key(static_cast<value_node_ptr>(X)->value()) -> NODE_KEY(X); my_hash_compare(a, b) -> KEY_EQUAL(a, b); my_hash_compare(k) -> KEY_HASH(k)"""
+    t = rw.sub(t, r'traits_type::get_key\(static_cast<value_node_ptr>\((\w+)\)->value\(\)\)', r'NODE_KEY(\1)', minc_eq, name='key of a value node -> NODE_KEY')
+    cnt = {'eq': 0, 'hash': 0}
+
+    def fn(m, a):
+        if len(a) == 2:
+            cnt['eq'] += 1
+            return 'KEY_EQUAL(%s, %s)' % (a[0], a[1])
+        cnt['hash'] += 1
+        return 'KEY_HASH(%s)' % a[0]
+    t = rw.call(t, r'\bmy_hash_compare', fn, minc_eq + minc_hash, name='hash_compare functor')
+    if cnt['eq'] < minc_eq or cnt['hash'] < minc_hash:
+        raise ExtractionBreak('hash_compare: %r, expected >= %d equality and >= %d hash applications' % (cnt, minc_eq, minc_hash))
+    return t
+
+
+def extract_solist(ctx, sliced, fired):
+    rw = Rewriter('solist')
+    # ---- list_node accessors (the only code that touches my_next) ----
+    LN = r'class list_node \{'
+    out = []
+    for name, sig, csig in (
+            ('next', r'node_ptr next\(\) const', 'static node_ptr list_node_next(node_ptr self)'),
+            ('order_key', r'sokey_type order_key\(\) const', 'static sokey_type list_node_order_key(node_ptr self)'),
+            ('is_dummy', r'bool is_dummy\(\)', 'static bool list_node_is_dummy(node_ptr self)'),
+            ('set_next', r'void set_next\( node_ptr next_node \)', 'static void list_node_set_next(node_ptr self, node_ptr next_node)'),
+            ('try_set_next', r'bool try_set_next\( node_ptr expected_next, node_ptr new_next \)', 'static bool list_node_try_set_next(node_ptr self, node_ptr expected_next, node_ptr new_next)')):
+        s = slice_block(UB, sig, within=LN)
+        sliced.append('%s:%d list_node::%s' % (UB, s.line, name))
+        t = rw.sub(s.text, sig, csig, 1, 1, name='sig')
+        t = rw.atomics(t, ['my_next'], 0)
+        t = rw.sub(t, r'\bmy_next\b', 'NODE_NEXT_WORD(self)', 0, name='field')
+        t = rw.sub(t, r'\bmy_order_key\b', 'NODE_ORDER_KEY(self)', 0, name='field')
+        t = rw.number_sites(t, 'node_' + name, by_kind=True)
+        out.append(t)
+    common.write(ctx, 'nodes.inc', '\n'.join(out) + '\n')
+    # ---- search_after / try_insert / internal_insert ----
+    out = []
+    s = slice_block(UB, r'std::pair<value_node_ptr, bool> search_after\( node_ptr& prev, sokey_type order_key, const key_type& key \)')
+    sliced.append('%s:%d search_after' % (UB, s.line))
+    t = key_calls(rw, s.text, 1)
+    t = node_calls(rw, t, 2)
+    t = rw.sub(t, r'(?<!& )\bprev\b', '(*prev)', 1, name='ref-param')
+    t = rw.sub(t, r'std::pair<value_node_ptr, bool> search_after\( node_ptr& prev, sokey_type order_key, const key_type& key \)',
+               'struct sres cub_search_after(struct cub* self, node_ptr* prev, sokey_type order_key, key_type key)', 1, 1, name='sig')
+    t = rw.sub(t, r'return \{([^{};]*)\};', r'return (struct sres){\1};', 1, name='braced return -> compound literal')
+    t = rw.casts(t, 0)
+    t = rw.std(t)
+    t = tag_loops(t, 'search', rw, expect=1)
+    out.append(t)
+    s = slice_block(UB, r'static bool try_insert\( node_ptr prev_node, node_ptr new_node, node_ptr current_next_node \)')
+    sliced.append('%s:%d try_insert' % (UB, s.line))
+    t = rw.sub(s.text, r'static bool try_insert\(', 'static bool cub_try_insert(', 1, 1, name='sig')
+    t = node_calls(rw, t, 0)
+    out.append(t)
+    s = slice_block(UB, r'internal_insert_return_type internal_insert\( ValueType&& value, CreateInsertNode create_insert_node \)')
+    sliced.append('%s:%d internal_insert' % (UB, s.line))
+    t = rw.sub(s.text, r'internal_insert_return_type internal_insert\( ValueType&& value, CreateInsertNode create_insert_node \)',
+               'struct iir cub_internal_insert(struct cub* self, key_type value)', 1, 1, name='sig (the value is represented by its key; the node factory by STUB_create_insert_node)')
+    t = rw.sub(t, r'(?s)static_assert\(.*?\);', 'RG_NOP();', 0, 1, name='static_assert (compile time) -> RG_NOP')
+    t = rw.sub(t, r'const key_type& key = traits_type::get_key\(value\);', 'key_type key = value;', 1, 1, name='key extraction')
+    t = key_calls(rw, t, 0, 1)
+    t = rw.sub(t, r'\bauto search_result\b', 'struct sres search_result', 1, 1, name='auto')
+    t = rw.sub(t, r'\bauto sz\b', 'size_type sz', 0, 1, name='auto')
+    t = rw.sub(t, r'\bsearch_after\(prev,', 'cub_search_after(self, &prev,', 1, name='method + ref-param')
+    t = rw.sub(t, r'\btry_insert\(', 'cub_try_insert(', 0, name='method')
+    t = rw.sub(t, r'\bprepare_bucket\(', 'STUB_prepare_bucket(self, ', 1, 1, name='callee stub (proved in solist.bucket)')
+    t = rw.sub(t, r'\bcreate_insert_node\(', 'STUB_create_insert_node(self, ', 1, 1, name='callee stub (node factory)')
+    t = rw.sub(t, r'\badjust_table_size\(', 'STUB_adjust_table_size(self, ', 0, name='callee stub (proved in bcount.adjust)')
+    t = rw.sub(t, r'\bsplit_order_key_regular\(', 'split_order_key_regular(', 1, 1, name='callee (sliced, sokey.inc)')
+    t = rw.sub(t, r'internal_insert_return_type\{', '(struct iir){', 1, name='braced temporary -> compound literal')
+    t = rw.atomics(t, ['my_size', 'my_bucket_count'], 0)
+    t = rw.sub(t, r'(?<![\w.>])(my_size|my_bucket_count)\b', r'self->\1', 0, name='field')
+    t = rw.asserts(t, 0)
+    t = rw.casts(t, 0)
+    t = rw.fcasts(t, TY)
+    t = rw.std(t)
+    t = rw.number_sites(t, 'insert', by_kind=True)
+    t = tag_loops(t, 'insert', rw, expect=1)
+    out.append(t)
+    common.write(ctx, 'insert.inc', '\n'.join(out) + '\n')
+    fired['solist'] = rw.fired
+
+
 def build(ctx):
     sliced, fired = extract(ctx)
+    extract_solist(ctx, sliced, fired)
     C = os.path.join(HERE, 'c12.c')
     jobs = [
         Job('rev.bits', C, 'h_reverse', route='LW', unwind=10, target='machine_reverse_bits<size_t> + reverse_byte + byte_table', source=MH),
@@ -98,6 +199,8 @@ def build(ctx):
         Job('bcount.round_up', C, 'h_round_up', route='LF', target='round_up_to_power_of_two', source=UB),
         Job('bcount.rehash', C, 'h_rehash', route='RG', loops=True, target='concurrent_unordered_base::rehash', source=UB),
         Job('bcount.adjust', C, 'h_adjust', route='RG', target='concurrent_unordered_base::adjust_table_size [IEEE float]', source=UB),
+        Job('solist.insert', C, 'h_insert', route='RG', loops=True, nloops=2, defines=['C12_LIST', 'L_INSERT'], timeout=300,
+            target='concurrent_unordered_base::internal_insert + search_after + try_insert + list_node::next/set_next/try_set_next (any list, any number of threads, unique and multi)', source=UB),
     ]
     return {
         'jobs': jobs, 'sliced': sliced, 'fired': fired,
